@@ -11,7 +11,8 @@
      - operations on the root / "." ".." last elements: the path ends in a proper name [w ++ [cl]]
      - a Symlink target is given cleaned ([t = clean Linux t]).
    Compared: the projected result ([proj_res]) and the whole resulting file system (heap, id counter).
-   [stat_sim]: equality, except that the specification reports 0 for the size of a directory. *)
+   [stat_sim] / [obs_sim]: equality, except that the specification reports 0 for the size of a directory (in a
+   FileInfo, and in every entry of a directory listing). *)
 From Avfs Require Import Base PathModel PathSpec PathProofs PathCleanProofs PathIterProofs.
 From Avfs Require Import MemFS MemFile World Posix WalkBridge WalkSym WalkBudget WalkReadlink StepEq.
 
@@ -73,11 +74,40 @@ Theorem C01_step_link : forall (s : fsys) (sv : sview) (co w : list str) (cl : s
   (fst (link s (sv_view sv) o p), proj_res Linux (snd (link s (sv_view sv) o p))) = k_link true s sv o p.
 Proof. exact step_link. Qed.
 
+Theorem C01_step_chown : forall (s : fsys) (sv : sview) (slm : slmode) (cs : list str) (uid gid : Z),
+  step_hyps s sv -> path_ok s sv slm cs -> no_setid s sv (follow_of slm) cs ->
+  (fst (chown_gen slm s (sv_view sv) (abs_path cs) uid gid),
+   proj_res Linux (snd (chown_gen slm s (sv_view sv) (abs_path cs) uid gid)))
+  = k_chown (follow_of slm) s sv (abs_path cs) uid gid.
+Proof. exact step_chown. Qed.
+
+(* Chdir: both succeed or both fail with the same errno (the new working directory is kept as a string by the
+   implementation, as a node by the specification) *)
+Theorem C01_step_chdir : forall (s : fsys) (sv : sview) (cs : list str),
+  step_hyps s sv -> path_ok s sv SlEval cs ->
+  match chdir s (sv_view sv) (abs_path cs), k_chdir s sv (abs_path cs) with
+  | inl r, inl e => proj_res Linux r = SErr e
+  | inr _, inr _ => True
+  | _, _ => False
+  end.
+Proof. exact step_chdir. Qed.
+
+(* ReadFile and ReadDir: OpenFile(O_RDONLY) followed by the handle methods, against open(2) + read / getdents *)
+Theorem C01_step_read_file : forall (s : fsys) (sv : sview) (cs : list str),
+  step_hyps s sv -> path_ok s sv SlEval cs ->
+  proj_res Linux (read_file s (sv_view sv) (abs_path cs)) = go_read_file s sv (abs_path cs).
+Proof. exact step_read_file. Qed.
+
+Theorem C01_step_read_dir : forall (s : fsys) (sv : sview) (cs : list str),
+  step_hyps s sv -> path_ok s sv SlEval cs -> ptr_valid (f_heap s) ->
+  obs_sim (proj_res Linux (read_dir s (sv_view sv) (abs_path cs))) (go_read_dir s sv (abs_path cs)).
+Proof. exact step_read_dir. Qed.
+
 (* one step of the two step functions of the models (the statement the oracle stream's "T" column tests):
    covered call => same projected result, and the abstraction relation is kept (same file system, same view) *)
 Theorem C01_step : forall (w : world) (vi : nat) (sw : sworld) (c : call),
   absw w vi sw -> covered vi sw c ->
-  stat_sim (snd (impl_step_proj w c)) (snd (spec_step true sw c))
+  obs_sim (snd (impl_step_proj w c)) (snd (spec_step true sw c))
   /\ absw (fst (impl_step_proj w c)) vi (fst (spec_step true sw c)).
 Proof. exact step_world. Qed.
 
@@ -85,6 +115,6 @@ Proof. exact step_world. Qed.
    the same results, and the same file system after the last call *)
 Theorem C01_history : forall (vi : nat) (cs : list call) (w : world) (sw : sworld),
   absw w vi sw -> covered_run vi sw cs ->
-  Forall2 stat_sim (snd (impl_run w cs)) (snd (spec_run sw cs))
+  Forall2 obs_sim (snd (impl_run w cs)) (snd (spec_run sw cs))
   /\ absw (fst (impl_run w cs)) vi (fst (spec_run sw cs)).
 Proof. exact history_world. Qed.
